@@ -7,6 +7,7 @@
 //	<id> e2e <mode> <commitmode> ; <tok>,<tok>,… | ok or HANG:…+LEAK:g=…,c=…+… | <tags>
 //	<id> det <mode> <commitmode> <N> <k> <j> <qcap> | msg,…,nil,D,msg,…,eof,… | det,mode=…,buffered=…[,late-msg]
 //	<id> cac <commitmode> <n> | <cp>:<ctx>:<nil>:<oth> | cac,qcap=…[,late-commit-not-cp]
+//	<id> gse <hbfault> <wind> | fnret_before_close=<0|1>,join_before_fnret=<0|1>,commit=<nil|err|none>,census=<ok|LEAK:…> | gse,hb=…,wind=…
 //	<id> nlv <hbcode> <joincode> | rejoin=<m>,lv=<n>,members=<n> | nlv,hb=…,join=…,later-joins=normal[,retried]
 //
 // mode: p (Reader, Partition), g (Reader, GroupID), t (kafka.Client / Transport; C/D =
@@ -14,7 +15,9 @@
 // WriteMessages, C1/D1 = Writer.Close, C2/D2 = Transport.CloseIdleConnections; no q tokens).
 // Guaranteed for N >= 20 (converted from the last ordinary e2e entries): 2 nlv, and the "late
 // answer" family (tag late-answer-family): 3 t late-answer, 2 t late-close, w-late-produce,
-// w-late-close, w-late-metadata, late-reply-reader in g and in p.
+// w-late-close, w-late-metadata, late-reply-reader in g and in p; and (N >= 28) 3 gse and 3 mode g
+// gen-self-end (tag gen-self-end-family; verdicts OVERLAP:join-before-commit-answered and
+// OVERLAP:close-before-commit-answered, see e2e_gf.go and hold.go).
 //
 // Timeline tokens (one total order): c<cid>:<f|r|m|t|w>  x<cid>  r<cid>:<msg|nil|eof|cp|ctx|oth>
 // C<k> D<k>  q<api>:<m>  j<m>.  A worker that reported HANG or LEAK exits (code 3) and the parent
@@ -160,6 +163,28 @@ func plan(seed int64, n int) []scen {
 				want = want[1:]
 			}
 		}
+		// the "generation ends on its own" family, taken from the entries that are left (all of
+		// it for N >= 28): op gse with hbfault 1b, 19, 0 and the mode g kind gen-self-end with
+		// heartbeat code 1b, 19, 16
+		type gfam struct{ op, kind, variant string }
+		wantG := []gfam{{"gse", "", "1b"}, {"e2e", "gen-self-end", "1b"}, {"gse", "", "19"}, {"e2e", "gen-self-end", "19"},
+			{"gse", "", "0"}, {"e2e", "gen-self-end", "16"}}
+		for pass := 0; pass < 2; pass++ {
+			for i := len(l) - 1; i >= front && len(wantG) > 0; i-- {
+				k := l[i].kind
+				ordinary := l[i].op == "e2e" && !strings.HasPrefix(k, "late-") && !strings.HasPrefix(k, "w-late-") && k != "gen-self-end"
+				if !ordinary || (pass == 0) != (l[i].mode == "p" || l[i].mode == "g") {
+					continue
+				}
+				w := wantG[0]
+				wantG = wantG[1:]
+				l[i].op, l[i].kind, l[i].variant = w.op, w.kind, w.variant
+				l[i].mode = "g"
+				if w.op == "gse" {
+					l[i].mode = ""
+				}
+			}
+		}
 	}
 	return l
 }
@@ -173,6 +198,8 @@ func argPrefix(sc scen) string {
 		return detArgs(sc)
 	case "nlv":
 		return nlvArgs(sc)
+	case "gse":
+		return gseArgs(sc)
 	}
 	return cacArgs(sc)
 }
@@ -190,6 +217,8 @@ func runScenario(sc scen) result {
 		return runCac(sc)
 	case "nlv":
 		return runNlv(sc)
+	case "gse":
+		return runGse(sc)
 	}
 	switch {
 	case sc.mode == "w":
